@@ -39,3 +39,12 @@ pub fn event(name: &'static str, a: usize, b: usize) {
         f(name, a, b);
     }
 }
+
+/// Overwrites every reusable thread-local scratch storage of the calling thread with arbitrary contents
+/// (the window cache, which is state with a meaning, is left alone).
+pub fn poison_scratch(seed: u64) {
+    coding::poison_scratch(seed);
+    rice::poison_scratch(seed.wrapping_mul(3));
+    lpc::poison_scratch(seed.wrapping_mul(5));
+    bitrepr::poison_scratch(seed.wrapping_mul(7));
+}
